@@ -311,7 +311,8 @@ var pureLibPkgs = map[string]bool{
 	"golang.org/x/tools/go/packages": false,
 }
 
-var pureFmt = map[string]bool{"fmt.Sprintf": true, "fmt.Sprint": true, "fmt.Errorf": true, "fmt.Sprintln": true,
+var pureFmt = map[string]bool{"fmt.Printf": true, "fmt.Println": true, "fmt.Print": true, "log.Printf": true, "log.Println": true, "log.Print": true,
+	"fmt.Sprintf": true, "fmt.Sprint": true, "fmt.Errorf": true, "fmt.Sprintln": true,
 	"github.com/pkg/errors.Wrapf": true, "github.com/pkg/errors.Errorf": true, "github.com/pkg/errors.New": true}
 
 func (p *Program) isPure(fn *ssa.Function) bool {
